@@ -5,10 +5,51 @@ disagreement are attributed to the property) and notes for the evidence."""
 BAT_ASSUME = ["scenarios are sampled; the theorems quantify over all of them",
               "virtual time (testing/synctest): internal steps take no time"]
 
+def bat(families, cone, level_text, explanation="", extra_assume=None):
+    return dict(engine="batcher", families=families, cone=cone, assumptions=BAT_ASSUME + (extra_assume or []),
+                level_text=level_text, explanation=explanation,
+                level_note="Trusted: Coq kernel; extraction (ExtrOcamlBasic) and the OCaml reader/monitors; the Go harness (synctest) and its fakes; that sampled scenarios reach the code paths that matter (label coverage is reported). Modelled, not verified: Go runtime (channels, mutexes, sync.Cond, tickers), zero-duration internal steps. No axioms (Print Assumptions: closed under the global context).")
+
+ANY = r"^(loop:.*|other:.*|sample:.*|missing.*|act:.*|unknown:.*)$"
+
 PROPS = {
-    "C01": dict(engine="batcher", families=[("general", 300, 6000)],
-                cone=r"^(loop:batch|other:cbstart|other:cbret|sample:buf|missing|act:.*|unknown:.*)$",
-                assumptions=BAT_ASSUME,
-                level_text="Proof: conservation, uniqueness of instances across buffer/batches, own-watcher, at-most-once and (at settled states) at-least-once callback entry, no delivery after an error or after shutdown are theorems over every reachable state of the Batcher model (all label sequences: any workload, interleaving, capacity profile, slot limit, buffer size, both generations). The model is tied to the code by replaying recorded histories of the real implementation (synctest, tag verif) against the extracted model and by a model-free monitor on the same histories.",
-                level_note="Trusted: Coq kernel; extraction (ExtrOcamlBasic) and the OCaml reader; the harness and its fakes; that sampled scenarios reach the code paths that matter (label coverage is reported). Modelled, not verified: Go runtime (channels, mutexes, sync.Cond, tickers), zero-duration internal steps. No axioms (Print Assumptions: closed)."),
+    "C01": bat([("general", 300, 6000), ("slots", 150, 3000), ("dups", 100, 2000)],
+               r"^(loop:batch|loop:flushdone|loop:flushstart|other:cbstart|other:cbret|other:enqret|sample:buf|sample:pending|missing.*|act:.*|unknown:.*)$",
+               "Proof: conservation, uniqueness of instances across buffer/batches, own watcher, at-most-once and (at settled states) at-least-once callback entry, no delivery after an error or after shutdown are theorems over every reachable state of the Batcher model (all label sequences: any workload, interleaving, capacity profile, slot limit, buffer size, both generations). Tie to the code: recorded histories of the real implementation (synctest, tag verif) are replayed against the extracted model (trace inclusion) and checked by a model-free monitor."),
+    "C02": bat([("limiter", 300, 6000), ("general", 150, 3000)],
+               r"^(loop:batch|loop:capread|loop:flushstart|loop:flushdone|missing.*|act:.*|unknown:.*)$",
+               "Proof: the take-guard of every visit, consumed = cost taken (invariant), the cycle bound and the V2 zero-allowance clause, allowance computed from Capacity() at cycle start, exactness of the V2 integer ceiling w.r.t. the real-valued comparison, and the counting of cycles against ticks and Flush() calls are theorems over all executions. The V1 binary64 allowance is modelled bit-exactly (SpecFloat) and compared with Go on every run; its relation to the real product is validated, not proved (partial, DESIGN.md 5)."),
+    "C03": bat([("accounting", 300, 6000), ("hold", 150, 3000), ("general", 150, 3000)],
+               r"^(sample:needs|loop:request|loop:giveme|loop:audit.*|other:enqret|sample:pending|missing.*|act:.*|unknown:.*)$",
+               "Proof (partial, see Props/C03.v): each step's effect on the demand figure (count on accept, give-back on a refused insert, one decrement per finished batch, nothing on a rejection) is proved; the global equation target = outstanding cost is proved for executions without a failing audit; the audit race D7 is a recorded finding (refuted theorem with witness)."),
+    "C05": bat([("general", 300, 6000), ("dups", 100, 2000), ("coincide", 100, 2000)],
+               r"^(loop:batch|other:cbstart|missing.*|act:.*|unknown:.*)$",
+               "Proof: single watcher, non-empty, size limit, non-batchable alone, open batches strictly below the limit (hence a second batch only after a full one) and partial batches only at cycle end are invariants over all executions. Order inside and across batches is decided by the correspondence check (exact batch contents against the model, which appends in buffer order) and the monitor; its theorem is not yet stated (partial)."),
+    "C08": bat([("smallcap", 200, 4000), ("buffer", 150, 3000), ("slots", 150, 3000)],
+               r"^(loop:batch|loop:capread|loop:flushstart|loop:flushdone|other:enqret|sample:buf|sample:pending|missing.*|act:.*|unknown:.*)$",
+               "Proof (bounded-progress form of liveness): positive allowance for any positive capacity (V2 after repair D5), head progress of every cycle with allowance and a free slot, the only reasons to stop or skip, promptness and coalescing of Flush(), wake-up of exactly one waiter per removal. 'Eventually' as a temporal statement over infinite runs is not expressed (DESIGN.md 5)."),
+    "C10": bat([("slots", 300, 6000), ("slots-any", 100, 2000)],
+               r"^(sample:inflight|loop:batch|loop:audit.*|sample:buf|missing.*|act:.*|unknown:.*)$",
+               "Proof: the slot count never exceeds n (invariant), a slot is needed to open a batch, a skipped operation stays buffered, completion gives exactly one slot back once, at settled states every batch in progress has entered its callback. Inflight() = number of batches in progress is decided by correspondence + monitor; its theorem (token count invariant under the watcher-timeout hypothesis) is the next proof target (partial)."),
+    "C11": bat([("timeouts", 300, 6000), ("slots", 100, 2000)],
+               r"^(sample:needs|sample:inflight|loop:request|loop:giveme|other:cbret|missing.*|act:.*|unknown:.*)$",
+               "Proof: effective time-out (watcher > Batcher > 1 min), deadline fixed at raise, write-off not enabled before the deadline, time cannot pass the deadline of an unfinished batch, the write-off happens once and a late return changes nothing, its effects on demand and slots. Exactness is in virtual time (synctest), DESIGN.md 5."),
+    "C12": bat([("ticks", 300, 6000), ("slots-any", 150, 3000), ("general", 100, 2000)],
+               r"^(loop:request|loop:giveme|missing.*|act:.*|unknown:.*)$",
+               "Proof: a request comes only from the idle loop consuming a capacity tick, only with a limiter, carries the current demand figure (zero included), one per tick; no tick is left unanswered at a settled instant while the loop is running; none during a pause or after shutdown."),
+    "C13": bat([("pauses", 300, 6000), ("lifecycle", 150, 3000)],
+               r"^(loop:pause|loop:resume|loop:.*|missing.*|act:.*|unknown:.*)$",
+               "Proof: Pause() only acts when started (idempotent otherwise), the loop sleeps until exactly now + PauseTime, nothing but the resume comes from the loop meanwhile, time cannot pass the end of the pause, the resume is always enabled at that instant, nothing is lost across the pause (C01's invariant)."),
+    "C14": bat([("admission", 300, 6000), ("dups", 150, 3000), ("general", 100, 2000)],
+               r"^(other:enqret|sample:.*|other:cbstart|missing.*|act:.*|unknown:.*)$",
+               "Proof: the decision table of Enqueue (pure function, in the order of the code), acceptance of everything else including cost = MaxCapacity and any cost without limiter, no side effect of a rejection, one attempt per delivery and no other change of attempt counters."),
+    "C15": bat([("buffer", 300, 6000), ("general", 150, 3000)],
+               r"^(other:enqret|sample:buf|sample:pending|missing.*|act:.*|unknown:.*)$",
+               "Proof: the buffer bound (invariant), V1 blocks only when full, the error path gives the counted cost back, V2 shutdown wakes every waiter and every blocked or later caller returns BufferIsShutdown. V1's panic on the closed channel is the recorded finding D2 (refuted theorem with witness). The pointer-level linked list of v2/buffer.go is tied to the list model by the correspondence check only (refinement proof not yet done: partial)."),
+    "C16": bat([("lifecycle", 300, 6000), ("pauses", 150, 3000)],
+               r"^(other:startret|other:stopret|other:setterpanic|other:enqret|loop:shutdown|loop:.*|sample:pending|missing.*|act:.*|unknown:.*)$",
+               "Proof: Start succeeds exactly once, setters panic after Start (V2), exactly one shutdown event, after it no batch and no capacity request, every settled state after a stop request has the loop exited or still asleep in a pause (termination in bounded-progress form), V2 Enqueue after shutdown returns an error. V1 Enqueue after Stop panics: recorded finding D2 (refuted theorem with witness)."),
+    "C19": bat([("accounting", 200, 4000), ("hold", 150, 3000), ("stale", 150, 3000), ("ticks", 100, 2000)],
+               r"^(loop:audit.*|sample:needs|sample:inflight|missing.*|act:.*|unknown:.*)$",
+               "Proof (partial, see Props/C19.v)."),
 }
